@@ -4,7 +4,8 @@ import os
 import common
 
 PROPS = "RotoV.Props.C16"
-MODULES = ["RotoV.Lemmas.ListConc", "RotoV.Model.ListConc", "RotoV.Lemmas.ListTrace", "RotoV.Model.ListTrace"]
+MODULES = ["RotoV.Lemmas.ListConc", "RotoV.Model.ListConc", "RotoV.Lemmas.ListTrace", "RotoV.Model.ListTrace",
+           "RotoV.Lemmas.ListConcIter", "RotoV.Model.ListConcIter"]
 
 
 def harness_args(ctx, seed, tier, model=True):
@@ -107,7 +108,9 @@ def named_functions(ctx):
 
 
 def run(ctx):
-    if ctx.extract(["c16facts"]):
+    # c16facts: lock-scope facts, traces, function enumeration; listiter: what `into_iter`
+    # initialises and `IntoIter::next` decides (the live-iterator layer of the model)
+    if ctx.extract(["c16facts", "listiter"]):
         named_functions(ctx)
     proved = ctx.prove(PROPS, extra_modules=MODULES)
     model = True
@@ -127,18 +130,24 @@ def run(ctx):
         "probe element type; in the model: locked_list_untouched_by_other_threads + lock_structure_derived_from_source)",
         "what the hardware / allocator does with a stale pointer is not modelled: the instrumentation reports the stale "
         "use (pointer obtained before a realloc/free event covering its address) instead of performing it",
+        "a thread that drives an iterator decides its next operation from the results it has (IntoIter::next, decisions "
+        "generated by target listiter); it is identified with the static program of the operations it issued (Follows; "
+        "later_operations_do_not_change_the_run_so_far is the reason; that the driver's adaptive execution issues Follows "
+        "programs is checked on every answer, not proved)",
         "elements are u64 (no element destructor, clone = copy); RawList's Vec semantics (push/extend/swap/contains) is "
         "modelled by hand and tied by the differential run only (C15 owns its refinement proof)",
     ]
     return ctx.finish(
         level="proof",
         rule="every maximal interleaving (at schedule-point granularity, enumerated by stateless depth-first search on the "
-             "real threads) of every case: 164 class representatives first (every operation that walks over elements x "
+             "real threads) of every case: 184 class representatives first (a live Rust-side iterator - one critical section per "
+             "`next` - x {relocating push, swap, concat, ==, to_vec, drop, a second iterator}, resumed after its end, dropped "
+             "against the last drop, over u64 and probe elements; every operation that walks over elements x "
              "{relocating push, swap} with element-level schedule points - lists of a probe element type whose Clone / "
              "PartialEq are schedule points; == over equal lists; concat / + with empty and non-empty operands through "
              "compiled scripts and directly; every scripted operation x mutator), then all pairs of single operations from "
              "a 25-operation alphabet over two shared "
-             "lists, then random cases (2 threads x <= 2 ops, every 16th 3 threads x 1 op, every 8th through compiled Roto scripts, quick; 2-3 threads x <= 3 ops and every pair of the 90 programs of <= 2 ops over a 9-operation alphabet, thorough); evaluations = "
+             "lists, then random cases (2 threads x <= 2 ops, every 16th 3 threads x 1 op, every 8th through compiled Roto scripts, every 10th with a live iterator, quick; 2-3 threads x <= 3 ops and every pair of the 90 programs of <= 2 ops over a 9-operation alphabet, thorough); evaluations = "
              "executed schedules; a class is distinct by (operation kinds per thread, how the schedule ended, whether a "
              "reallocation happened, whether some thread was blocked, element flavour: u64 / through scripts / probe elements); "
              "250 (quick) / 1500 (thorough) random probe-element cases are judged by the property oracle only",
